@@ -189,7 +189,9 @@ func c17(c *Ctx) {
 	r = "C17.2/singleapp-setoffset"
 	if f := c.mustFn(r, aofT+"SetOffset"); f != nil {
 		// no state is changed when newOffset > current offset
-		grow := whenCond(false, func(a string) bool { return strings.Contains(a, "offset[") && strings.HasSuffix(a, "< param:newOffset)") })
+		grow := whenCond(false, func(a string) bool {
+			return strings.Contains(a, "offset[") && strings.HasSuffix(a, "< param:newOffset)")
+		})
 		for _, fld := range []string{"fileOffset", "wbufUnwrittenOffset", "wbufFlushedOffset", "seekRequired"} {
 			p := storeTo("AppendableFile." + fld)
 			if len(sites(f, p)) == 0 {
@@ -209,7 +211,9 @@ func c17(c *Ctx) {
 		c.ruleOrder(r, f, "currApp.Close", callTo(appClose+"@currApp"), "openAppendable", callTo(mfT+"openAppendable"), nil, 1)
 		c.ruleOrder(r, f, "openAppendable", callTo(mfT+"openAppendable"), "store currApp", storeTo("MultiFileAppendable.currApp"), nil, 1)
 		c.ruleOrder(r, f, "openAppendable", callTo(mfT+"openAppendable"), "store currAppID", storeTo("MultiFileAppendable.currAppID"), nil, 1)
-		eq := whenCond(true, func(a string) bool { return strings.Contains(a, "param:off") && strings.Contains(a, " == ") && strings.Contains(a, "offset[") })
+		eq := whenCond(true, func(a string) bool {
+			return strings.Contains(a, "param:off") && strings.Contains(a, " == ") && strings.Contains(a, "offset[")
+		})
 		c.ruleMustPass(r, f, nil, "currApp.SetOffset", callTo(appSetOff+"@currApp"), eq, false)
 		for _, in := range sites(f, callTo(appSetOff+"@currApp")) {
 			a := desc(callOf(in).Args[0])
